@@ -41,6 +41,7 @@ fn main() {
 		("replay", "VT") => vt::replay(&args[3], &args[4], &args[5]),
 		("replay", "PIPELINE") => pipeline::replay(&args[3], &args[4], &args[5]),
 		("replay", "CONVERT") => convert::replay(&args[3], &args[4], &args[5]),
+		("cli", "CONVERT") => convert::cli(&args[3], &args[4], &args[5], &args[6], args[7].parse().unwrap()),
 		("replay", "CONTAINER") => container::replay(&args[3], &args[4], &args[5], &args[6]),
 		("record", "CONTAINER") => container::record(&args[3], &args[4], seed, thorough, &args[5]),
 		("replay", "C15") => c15::replay(&args[3], &args[4]),
